@@ -384,7 +384,7 @@ func splitContainer(data []byte, p *Parsed) (clear, private, trailer []byte, err
 			pb := cb ^ byte(r>>8)
 			r = (uint16(cb)+r)*c1 + c2
 			plain = append(plain, pb)
-			if n := len(plain); n >= 10 && isPSSpace(pb) && bytes.HasSuffix(plain[:n-1], []byte("closefile")) {
+			if n := len(plain); n >= 22 && isPSSpace(pb) && bytes.HasSuffix(plain[:n-1], []byte("currentfile closefile")) {
 				done = true
 			}
 		}
@@ -396,11 +396,11 @@ func splitContainer(data []byte, p *Parsed) (clear, private, trailer []byte, err
 	}
 	p.Container = ContBinary
 	plain := Decrypt(rest, EexecKey)
-	k := bytes.Index(plain, []byte("closefile"))
-	if k < 0 || k+9 >= len(plain) {
+	k := bytes.Index(plain, []byte("currentfile closefile"))
+	if k < 0 || k+21 >= len(plain) {
 		return nil, nil, nil, perr("binary section: closefile not found")
 	}
-	end := k + 10 // closefile + one white-space byte
+	end := k + 22 // closefile + one white-space byte
 	p.EexecCipher = rest[:end]
 	return clear, plain[4:end], rest[end:], nil
 }
@@ -498,7 +498,7 @@ func (p *Parsed) scan(data []byte, private bool) error {
 				lastInt = -1
 				continue
 			}
-			if w == "closefile" && private {
+			if w == "closefile" && private && len(toks) > 0 && toks[len(toks)-1].k == tkWord && string(toks[len(toks)-1].s) == "currentfile" {
 				p.ClosefileSeen = true
 				toks = append(toks, t)
 				break
